@@ -127,18 +127,24 @@ class SocketDriver(drivers.IrcDriver, drivers.ServersMixin):
         if not self.connected:
             return
         if not self.zombie:
-            msgs = [self.irc.takeMsg()]
-            while msgs[-1] is not None:
-                msgs.append(self.irc.takeMsg())
-            del msgs[-1]
-            data = ''.join(map(str, msgs))
-            if minisix.PY3:
-                # 'replace': text that cannot be encoded (a lone surrogate,
-                # e.g. from a quoted "\ud800" argument) is sent as '?' rather
-                # than raising UnicodeEncodeError out of the driver loop.
-                data = data.encode('utf-8', 'replace')
-            self.outbuffer += data
-        if self.outbuffer:
+            # Each message goes to the out-buffer as soon as it is taken:
+            # takeMsg itself may reconnect (ping time-out), which empties the
+            # buffer.  Messages taken before that belong to the connection
+            # that was dropped; collected in a list and appended afterwards
+            # they were the first thing written on the new connection, ahead
+            # of CAP LS/NICK/USER.
+            msg = self.irc.takeMsg()
+            while msg is not None:
+                data = str(msg)
+                if minisix.PY3:
+                    # 'replace': text that cannot be encoded (a lone
+                    # surrogate, e.g. from a quoted "\ud800" argument) is
+                    # sent as '?' rather than raising UnicodeEncodeError out
+                    # of the driver loop.
+                    data = data.encode('utf-8', 'replace')
+                self.outbuffer += data
+                msg = self.irc.takeMsg()
+        if self.outbuffer and self.connected:
             try:
                 # outbuffer holds bytes: send() returns a number of bytes
                 sent = self.conn.send(self.outbuffer)
